@@ -41,8 +41,9 @@ type HandleObs struct {
 	Has1 bool   `json:"has1"` // ListDataStores lists collection c1
 }
 type FeedLifeObs struct {
-	N    int  `json:"n"`    // callbacks since the previous line
-	Done bool `json:"done"` // done channel closed
+	N     int  `json:"n"`     // callbacks since the previous line
+	Done  bool `json:"done"`  // done channel closed
+	After int  `json:"after"` // callbacks that arrived after the done channel was closed
 }
 type LifeLine struct {
 	K     string                 `json:"k"` // reset | act
@@ -195,7 +196,11 @@ func (lr *lifeRun) exec(a *LifeAct) (string, string) {
 		case "StartFeed":
 			b := lr.hs[a.H]
 			lf := &lifeFeed{term: make(chan bool), done: make(chan struct{})}
+			slowColl := uint32(0)
 			cb := func(e sgbucket.FeedEvent) bool {
+				if slowColl != 0 && e.CollectionID == slowColl {
+					time.Sleep(4 * time.Millisecond) // one collection's part of a bucket-level dump takes longer than the others'
+				}
 				// (only the driver's own documents count: a checkpointed feed writes its checkpoint into the collection)
 				if (e.Opcode == sgbucket.FeedOpMutation || e.Opcode == sgbucket.FeedOpDeletion) && strings.HasPrefix(string(e.Key), "w") {
 					lf.mu.Lock()
@@ -226,6 +231,23 @@ func (lr *lifeRun) exec(a *LifeAct) (string, string) {
 				var ds sgbucket.DataStore
 				if ds, err = b.NamedDataStore(lifeColl(a.C)); err == nil {
 					err = ds.(*rosmar.Collection).StartDCPFeed(ctx, args, cb, nil)
+				}
+			case "mdump":
+				// a bucket-level dump over the default collection and two collections of the same name in different scopes
+				args.Dump = true
+				args.Backfill = 0
+				var d1, d3 sgbucket.DataStore
+				if d1, err = b.NamedDataStore(lifeColl("c1")); err == nil {
+					d3, err = b.NamedDataStore(lifeColl("c3"))
+				}
+				if err == nil {
+					if lr.tr%2 == 0 {
+						slowColl = d1.(*rosmar.Collection).GetCollectionID()
+					} else {
+						slowColl = d3.(*rosmar.Collection).GetCollectionID()
+					}
+					args.Scopes = map[string][]string{"_default": {"_default"}, "s": {"c1"}, "t": {"c1"}}
+					err = b.StartDCPFeed(ctx, args, cb, nil)
 				}
 			case "multi":
 				if _, err = b.NamedDataStore(lifeColl("c1")); err == nil {
@@ -379,7 +401,7 @@ func (lr *lifeRun) observe(line *LifeLine, prevN map[string]int, baseGor int) {
 	for _, f := range lifeFeeds {
 		if lf := lr.fd[f]; lf != nil {
 			lf.mu.Lock()
-			line.Fd[f] = FeedLifeObs{N: lf.n - prevN[f], Done: lf.ended}
+			line.Fd[f] = FeedLifeObs{N: lf.n - prevN[f], Done: lf.ended, After: lf.after}
 			prevN[f] = lf.n
 			lf.mu.Unlock()
 		} else {
